@@ -7,6 +7,8 @@ import AeicProofs.Lemmas.StoreMain
 import AeicProofs.Lemmas.MergeProto
 import AeicModel.MergeProg
 import AeicModel.Generated.MergeProg
+import AeicProofs.Lemmas.AddProg
+import AeicModel.Generated.AddProg
 
 namespace C10
 open Aeic.Store
@@ -208,5 +210,59 @@ theorem well_formed_ends_with_metadata (p : Prog) (h : metadataLast p = true) (f
     have he : effSteps fs e = [.writeMetadata (mdOf fs)] := by
       cases e <;> simp_all [effSteps, isMetadataWrite]
     simp [List.flatMap_append, he]
+
+/-! ### `TrajectoryStore.add` as the source text has it (`Gen.addProgram`, regenerated from `trajectories/store.py` on every run) -/
+
+open Aeic.AddProg in
+/-- the shape of `add` in the working tree, decided by the kernel on the regenerated program: every statement that can refuse
+    precedes the first state change; the first state change is the cache insertion (which may itself still refuse, atomically),
+    after which nothing can raise; and an accepted `add` does everything the store model's `commitAdd` does (next index,
+    indexable decision, pending file creation before the data is written, the write, the stale mark) and returns -/
+theorem src_add_program_shape :
+    checksFirst Aeic.Gen.addProgram = true ∧ insertFirst Aeic.Gen.addProgram = true ∧ commitComplete Aeic.Gen.addProgram = true := by
+  decide
+
+open Aeic.AddProg in
+/-- **a rejected `add` of the source changes nothing** — whichever of its checks fails (any pattern of failing checks) or
+    when the cache refuses the trajectory: no attribute of the store was assigned, no helper that writes files was called -/
+theorem src_rejected_add_changes_nothing (fails : Nat → Bool) (insertRefused : Bool)
+    (h : (run fails insertRefused Aeic.Gen.addProgram).raised = true) :
+    (run fails insertRefused Aeic.Gen.addProgram).done = [] := by
+  have := raised_done fails insertRefused Aeic.Gen.addProgram [] src_add_program_shape.1 src_add_program_shape.2.1 h
+  simpa [Aeic.AddProg.run] using this
+
+open Aeic.AddProg in
+/-- `add` refuses exactly when one of its checks fails or the cache refuses — there is no other way out than the `return` -/
+theorem src_add_refuses_iff (fails : Nat → Bool) (insertRefused : Bool) :
+    (run fails insertRefused Aeic.Gen.addProgram).raised = true ↔
+      (∃ k ∈ checkIds Aeic.Gen.addProgram, fails k = true) ∨ insertRefused = true := by
+  have := raised_iff fails insertRefused Aeic.Gen.addProgram [] src_add_program_shape.1 src_add_program_shape.2.1
+  have hin : Ev.insert ∈ Aeic.Gen.addProgram := by decide
+  simpa [Aeic.AddProg.run, hin] using this
+
+open Aeic.AddProg in
+/-- an accepted `add` performs every state change of the source, in source order -/
+theorem src_accepted_add_commits (fails : Nat → Bool) (insertRefused : Bool)
+    (h : (run fails insertRefused Aeic.Gen.addProgram).raised = false) :
+    (run fails insertRefused Aeic.Gen.addProgram).done = mutations Aeic.Gen.addProgram := by
+  have := ok_done fails insertRefused Aeic.Gen.addProgram [] h
+  simpa [Aeic.AddProg.run] using this
+
+open Aeic.AddProg in
+/-- the same for ANY program of the language with that shape (a statement about the language, independent of today's source) -/
+theorem well_shaped_add_is_atomic (p : List Ev) (h1 : checksFirst p = true) (h2 : insertFirst p = true)
+    (fails : Nat → Bool) (insertRefused : Bool) (h : (run fails insertRefused p).raised = true) :
+    (run fails insertRefused p).done = [] := by
+  simpa [Aeic.AddProg.run] using raised_done fails insertRefused p [] h1 h2 h
+
+open Aeic.AddProg in
+/-- non-vacuity: the program does refuse (second check failing) and does commit (nothing failing), and a program with a state
+    change BEFORE a refusal is not atomic — the hypothesis `checksFirst` is what carries the theorem -/
+example :
+    (run (fun k => k == 1) false Aeic.Gen.addProgram).raised = true ∧
+    (run (fun _ => false) false Aeic.Gen.addProgram).raised = false ∧
+    (run (fun _ => false) false Aeic.Gen.addProgram).done.length = 7 ∧
+    (run (fun _ => true) false [.set "_next_index" false, .check 0, .insert, .ret]).done = [.set "_next_index" false] := by
+  decide
 
 end C10
